@@ -184,10 +184,12 @@ def run(ctx: Ctx) -> None:
     finally:
         drv.close()
     ctx.partial += [
-        "C09.inline_literal as one theorem over the whole inline loop (tokenize + fragments_join + text_join on escaped "
-        "text = one text token holding t) is not yet assembled: its unit steps (escape_punct, text/newline decline at a "
-        "backslash) and the table obligations are proved; the loop-level statement and the block-level contexts "
-        "(heading, emphasis, link text, alt, cell) are decided by the oracle",
+        "C09.inline_literal is proved for the backslash encoding at the inline level (Props/C09b.lean: for every text t "
+        "without line feed, every chain text :: mid ++ escape :: post whose mid rules decline at a backslash, every "
+        "rules2 chain inert without delimiters and every maxNesting >= 1, the inline parse of escapeAll t followed by "
+        "fragments_join and text_join is exactly one text token holding t). NOT proved: texts containing line feeds "
+        "(newline rule), the '&#N;' encoding, and the block-level contexts (heading, emphasis, link text, alt, cell), "
+        "which are decided by the oracle",
         "the character-reference form depends on the html5 entity table (external); numeric references are covered by the oracle",
     ]
 
